@@ -61,6 +61,7 @@ pub fn fuzz_entry(target: &str, data: &[u8]) {
         "c02" => t!("C02", "random", c02::Scenario, c02::fuzz_sanitize, c02::run),
         "c03" => t!("C03", "random", c03::Scenario, c03::fuzz_sanitize, c03::run),
         "c04" => t!("C04", "random", c04::Scenario, c04::fuzz_sanitize, c04::run),
+        "c05" => t!("C05", "whole-ms", c05::Scenario, c05::fuzz_sanitize, c05::run),
         "c06" => t!("C06", "walk", c06::Scenario, c06::fuzz_sanitize, c06::run),
         "c07" => t!("C07", "prefixes", c07::Scenario, c07::fuzz_sanitize, c07::run),
         "c08" => t!("C08", "random", c08::Scenario, c08::fuzz_sanitize, c08::run),
@@ -74,8 +75,9 @@ pub fn fuzz_entry(target: &str, data: &[u8]) {
         "c16" => t!("C16", "monitors", c16::Scenario, c16::fuzz_sanitize, c16::run),
         "c17" => t!("C17", "table", c17::Scenario, c17::fuzz_sanitize, c17::run),
         "c19" => t!("C19", "chains", c19::Scenario, c19::fuzz_sanitize, c19::run),
+        "c20" => t!("C20", "manual", c20::Scenario, c20::fuzz_sanitize, c20::run),
         other => panic!("unknown fuzz target {other}"),
     }
 }
 
-pub const FUZZ_TARGETS: &[&str] = &["c02", "c03", "c04", "c06", "c07", "c08", "c09", "c10", "c11", "c12", "c13", "c14", "c15", "c16", "c17", "c19"];
+pub const FUZZ_TARGETS: &[&str] = &["c02", "c03", "c04", "c05", "c06", "c07", "c08", "c09", "c10", "c11", "c12", "c13", "c14", "c15", "c16", "c17", "c19", "c20"];
